@@ -383,7 +383,7 @@ def _spelling(ctx, abs_, ex):
     cmc = prog.func('adv_shell.core.processing', 'check_multiclient_cfg')
     for c in iter_own_nodes(cmc.node):
         if isinstance(c, ast.Call) and getattr(c.func, 'id', '') == 'MultiClientPortCfgFixture':
-            kw = {k.arg: k.value for k in c.keywords}
+            kw = prog.bind_call(cmc.module, c)
             r = kw.get('claim_granting_reply')
 
             def enum_fqn(e) -> bool:
